@@ -60,6 +60,14 @@ def _items_of(ex, st, v, node):
     return None
 
 
+def materialize(ex, v: Val):
+    """A generator expression consumed whole (extend/list/sorted/...) = the list comprehension."""
+    if v.is_py and isinstance(v.py, tuple) and len(v.py) == 3 and v.py[0] == "genexp":
+        _, gnode, gst = v.py
+        return ex.comprehension(gnode, gst, "list")
+    return v
+
+
 def sorted_fn(t_in, elem):
     nm = "sorted_" + T._mangle(t_in)
     return z3.Function(nm, t_in.sort(), z3.SeqSort(elem.sort()))
@@ -67,6 +75,21 @@ def sorted_fn(t_in, elem):
 
 def elems_fn(elem):
     return z3.Function("elems_" + T._mangle(elem), z3.SeqSort(elem.sort()), z3.ArraySort(elem.sort(), z3.BoolSort()))
+
+
+def dict_wf(st, t, d):
+    """Well-formedness of a dict value: `keys` enumerates exactly `dom`, without duplicates.
+    (An invariant of every Python dict; the engine's own updates preserve it.)"""
+    key = ("dictwf", d.get_id())
+    if key in st.ghost:
+        return
+    st.ghost[key] = d
+    s = t.sort()
+    ks, dom = s.keys(d), s.dom(d)
+    i, j = z3.Int(fresh_name("wi")), z3.Int(fresh_name("wj"))
+    st.assume((z3.Length(ks) == 0) == (dom == z3.K(t.k.sort(), z3.BoolVal(False))))
+    st.assume(z3.ForAll([i], z3.Implies(z3.And(0 <= i, i < z3.Length(ks)), z3.Select(dom, ks[i]))))
+    st.assume(z3.ForAll([i, j], z3.Implies(z3.And(0 <= i, i < j, j < z3.Length(ks)), ks[i] != ks[j])))
 
 
 def set_iteration_order(st, v: Val) -> Val:
@@ -84,7 +107,9 @@ def seq_to_set(v: Val) -> Val:
     """set(list): λx. contains(list, x)."""
     t = v.ty
     x = fresh(t.elem, "sx")
-    return Val(T.Set(t.elem), z3.Lambda([x], z3.Contains(lift(v), z3.Unit(x))))
+    from .core import seq_contains_elem
+
+    return Val(T.Set(t.elem), z3.Lambda([x], seq_contains_elem(lift(v), x)))
 
 
 # ---- builtins ---------------------------------------------------------------------------------
@@ -100,11 +125,14 @@ def _len(ex, st, args, kwargs, node):
         return cs.length(ex, st, v)
     if isinstance(v.ty, T.Set) and not v.is_py:
         raise Unsupported("len() of a symbolic set", node)
+    if isinstance(v.ty, T.Dict) and not v.is_py:
+        dict_wf(st, v.ty, lift(v))
     return ops.length(v)
 
 
 @builtin("builtins.sorted", "sorted(c) = the elements of c in increasing order (opaque spec function sorted_T)")
 def _sorted(ex, st, args, kwargs, node):
+    args = [materialize(ex, a) for a in args]
     (v,) = args
     if kwargs:
         raise Unsupported("sorted(key=/reverse=)", node)
@@ -124,6 +152,7 @@ def _sorted(ex, st, args, kwargs, node):
 
 @builtin("builtins.set", "set(c) = the set of elements of c")
 def _set(ex, st, args, kwargs, node):
+    args = [materialize(ex, a) for a in args]
     if not args:
         return Val(PYOBJ, None, set(), True)
     (v,) = args
@@ -156,6 +185,7 @@ BUILTIN_MODELS["builtins.frozenset"] = Model("builtins.frozenset", _set, "frozen
 
 @builtin("builtins.list", "list(c) = the elements of c in iteration order")
 def _list(ex, st, args, kwargs, node):
+    args = [materialize(ex, a) for a in args]
     if not args:
         return Val(PYOBJ, None, [], True)
     (v,) = args
@@ -177,6 +207,7 @@ def _list(ex, st, args, kwargs, node):
 
 @builtin("builtins.tuple", "tuple(c) of a concrete-length c")
 def _tuple(ex, st, args, kwargs, node):
+    args = [materialize(ex, a) for a in args]
     if not args:
         return Val.const(())
     (v,) = args
@@ -344,7 +375,7 @@ def _int(ex, st, args, kwargs, node):
         if all(is_const(a) for a in args):
             return Val.const(int(args[0].py, args[1].py))
         if is_const(args[1]) and args[1].py == 16 and args[0].ty == T.STR:
-            f = z3.Function("int_hex", z3.StringSort(), z3.IntSort())
+            f = z3.Function("spec_int_hex", z3.StringSort(), z3.IntSort())
             return Val(T.INT, f(lift(args[0])))
         raise Unsupported("int(s, base) of a symbolic string", node)
     (v,) = args
@@ -568,6 +599,7 @@ def _need(args, n, node, name):
 
 def mutate(ex, st, recv: Val, name, args, kwargs, node):
     """In-place container method: returns (new receiver value, call result)."""
+    args = [materialize(ex, a) for a in args]
     none = Val.const(None)
     t = recv.ty
     if recv.is_py and isinstance(recv.py, list):
@@ -804,6 +836,7 @@ def value_method(ex, st, recv: Val, name, args, kwargs, node) -> Val:
             return Val(T.BOOL, z3.SuffixOf(lift(p, T.STR), s))
         if name == "join":
             (a,) = args
+            a = materialize(ex, a)
             items = _items_of(ex, st, a, node)
             if items is not None:
                 parts = []
@@ -851,6 +884,7 @@ def value_method(ex, st, recv: Val, name, args, kwargs, node) -> Val:
             return ops.ite(z3.Select(s.dom(d), k), Val(t.v, z3.Select(s.map(d), k)), dflt)
         if name in ("items", "keys", "values"):
             ks = s.keys(d)
+            dict_wf(st, t, d)
 
             def item(i, name=name):
                 kv = Val(t.k, ks[i])
@@ -858,7 +892,7 @@ def value_method(ex, st, recv: Val, name, args, kwargs, node) -> Val:
                 return {"items": Val(PYOBJ, None, (kv, vv), True), "keys": kv, "values": vv}[name]
 
             info = IterInfo("indexed", n=z3.Length(ks), item=item, facts=lambda i: [z3.Select(s.dom(d), ks[i])],
-                            seqval=Val(T.List(t.k), ks) if name == "keys" else None)
+                            seqval=Val(T.List(t.k), ks))
             info.dict_items = (t, d, name)
             return Val(PYOBJ, None, ("iterinfo", info, None), True)
         if name == "copy":
